@@ -1,3 +1,5 @@
+(* HISTORY (not built, not in _CoqProject): written before fix e33be43 was committed to /repo; its content
+   is now Model.filter_step / Proofs.latch_delivers_exactly_genuine. *)
 (* Full theorem for the repaired latch: with an ideal cipher (what decodes is genuine) every genuine
    packet is delivered and nothing else is, for EVERY interleaving with altered / forged packets,
    whatever arrives first. *)
